@@ -323,7 +323,9 @@ func genSpecs(r *rand.Rand, thorough bool) []*Spec {
 				// connection (see the report); that is outside this property
 				s.Burst = 1 + r.Intn(8)
 			}
-			if r.Intn(2) == 0 {
+			// a slow handler keeps messages queued inside the subscriber while
+			// Unsubscribe runs
+			if r.Intn(10) < 5 || (s.Broker == "stomp" && r.Intn(10) < 6) {
 				s.DelayUs = 100 + r.Intn(1400)
 				if s.N > 150 {
 					s.N = 50 + r.Intn(100)
@@ -417,7 +419,7 @@ func (m *monitor) crashed(s *Spec, stderr string, env []string, prefix string) {
 		"replay": "VERIF_SEED and tier reproduce the sequence list; the spec alone reproduces the message list (child sub-command reads it on stdin)"}
 	what := fmt.Sprintf("the subscriber's process crashed (%s in %s at %s): every subscription in the process stops getting messages", msg, fn, loc)
 	if len(culprits) == 0 {
-		m.run.Violation("C07:"+s.Broker+":crash:"+fn, what+"; no malformed kind of the sequence reproduces it on its own", w)
+		m.run.Violation("C07:crash:"+fn, what+"; no malformed kind of the sequence reproduces it on its own", w)
 		return
 	}
 	for _, k := range culprits {
@@ -426,8 +428,9 @@ func (m *monitor) crashed(s *Spec, stderr string, env []string, prefix string) {
 			w2[a] = b
 		}
 		w2["culprit_kind"] = k
+		w2["culprit_kind_definition"] = kindDoc[k]
 		w2["probe_shape"] = "V V <kind>x8 V V V S on fresh subscribers of the same configuration crashes in the same function"
-		m.run.Violation("C07:"+s.Broker+":crash:"+fn+":"+k, what+fmt.Sprintf("; a lone %s message on the topic reproduces it", k), w2)
+		m.run.Violation("C07:crash:"+fn+":"+k, what+fmt.Sprintf("; a lone %s message on the topic reproduces it", k), w2)
 	}
 }
 
